@@ -555,6 +555,7 @@ def run(ck):
     maxops = 30 if ck.tier == "quick" else 60
     rng = ck.rng
     hists, lines, recs = [], [], []
+    concrete, corr, hyp = [], [], []      # reported in this order: failing inputs first (the list of replays is capped)
     nonvac = 0
     latkinds = {}
     opcount = {}
@@ -575,15 +576,15 @@ def run(ck):
             lat_checked += 1
             bad = latok_defects(L)
             if bad:
-                ck.fail("latok:%s:%s" % (spec["kind"], bad[0]), "a Lattice object violates the hypotheses LatOK of the C09/C14 theorems: %r on %r" % (bad, spec),
-                        {"kind": "hypothesis", "lattice": spec, "fields": bad}, no_failing_input=True)
+                hyp.append(("latok:%s:%s" % (spec["kind"], bad[0]), "a Lattice object violates the hypotheses LatOK of the C09/C14 theorems: %r on %r" % (bad, spec),
+                            {"kind": "hypothesis", "lattice": spec, "fields": bad}))
     outs = common.driver(lines)
     nsteps = 0
     for h, line, out, (wps, reads, fails, err) in zip(hists, lines, outs, recs):
         if err is not None:
             n, msg = err
-            ck.fail(history_key(h, n) + ":" + msg.split(":")[0], "step %d of a valid history raised %s" % (n, msg),
-                    {"kind": "history", "history": h, "step": n, "error": msg})
+            concrete.append((history_key(h, n) + ":" + msg.split(":")[0], "step %d of a valid history raised %s" % (n, msg),
+                             {"kind": "history", "history": h, "step": n, "error": msg}))
             continue
         mod = model_reads(out, wps)
         ck.coverage["evaluations"] += len(reads)
@@ -598,14 +599,18 @@ def run(ck):
             first_dis = first_disagreement(h, reads, mod)
         if fails:
             n, clause, detail = fails[0]
-            ck.fail(history_key(h, n) + ":" + clause, "after step %d (%s) the atom violates %s: %s" % (n, h["steps"][n]["op"], clause, detail),
-                    {"kind": "history", "history": h, "step": n, "clause": clause, "detail": detail,
-                     "all": [(a, b) for a, b, _ in fails[:10]], "model_disagrees": first_dis is not None})
+            concrete.append((history_key(h, n) + ":" + clause, "after step %d (%s) the atom violates %s: %s" % (n, h["steps"][n]["op"], clause, detail),
+                             {"kind": "history", "history": h, "step": n, "clause": clause, "detail": detail,
+                              "all": [(a, b) for a, b, _ in fails[:10]], "model_disagrees": first_dis is not None}))
         elif first_dis is not None:
             n, d, pair = first_dis
-            ck.fail(history_key(h, n) + ":correspondence", "model and implementation disagree after step %d (%s): %r" % (n, h["steps"][n]["op"], d),
-                    {"kind": "correspondence", "history": h, "step": n, "difference": d, "impl_model": pair,
-                     "theorem": "DS.Props.C09 (model DS.Model.Adp no longer describes atom.py)"}, no_failing_input=True)
+            corr.append((history_key(h, n) + ":correspondence", "model and implementation disagree after step %d (%s): %r" % (n, h["steps"][n]["op"], d),
+                         {"kind": "correspondence", "history": h, "step": n, "difference": d, "impl_model": pair,
+                          "theorem": "DS.Props.C09 (model DS.Model.Adp no longer describes atom.py)"}))
+    for key, what, rep in concrete:
+        ck.fail(key, what, rep)
+    for key, what, rep in corr + hyp:
+        ck.fail(key, what, rep, no_failing_input=True)
     ck.coverage["distinct_nontrivial"] += nonvac
     ck.coverage["rule"] = (
         "seeded random histories (3..%d steps) on a fresh Atom (constructor-argument forms) or an atom inside a Structure of 1-3 atoms; "
